@@ -163,7 +163,7 @@ def run_variant(ctx, hb, mexe, work, tag, env_extra, args, stats, findings):
                     why = "SPEC"
                 if len(fm) > 4 and fm[4] == "G1":
                     stats["guard_holds"] += 1
-                    if fi[4] not in ("ok", "skip", "skip-ctl") and not fi[4].startswith("off"):
+                    if fi[4] not in ("ok", "skip", "skip-ctl") and not fi[4].startswith("off") and not fi[4].startswith("alias"):
                         why = why or ("the guard of C17_stream_chunk_independent_partial holds for this stream, yet the implementation "
                                       "does not produce the specified values (" + fi[4] + ")")
             prop = fi[4]
@@ -178,6 +178,13 @@ def run_variant(ctx, hb, mexe, work, tag, env_extra, args, stats, findings):
                 else:
                     findings.append(("O", "stream decoder disagrees with value-by-value decoding of the same bytes (%s)" % prop,
                                      {"case": describe(cs), "implementation": fi[1], "oracle(values|terminal)": fi[3], "divergence": prop}, True))
+            elif prop.startswith("alias"):
+                _, k_, e_, l_ = prop.split(":")
+                findings.append(("O", "a value returned by an earlier Decode changed after later input was read / the buffer went through the pool "
+                                      "(value #%s was %r, is now %r): the decoded value aliases the stream buffer" %
+                                      (k_, bytes.fromhex(e_.replace("-", "")).decode("utf8", "replace")[:80], bytes.fromhex(l_.replace("-", "")).decode("utf8", "replace")[:80]),
+                                 {"case": describe(cs), "implementation": fi[1], "oracle(values|terminal)": fi[3],
+                                  "note": "bufPool recycling on (pool phase): option.LimitBufferSize at its default"}, True))
             elif prop.startswith("off"):
                 _, k_, got, lo, hi, ws = prop.split(":")
                 if int(got) < int(lo) and int(lo) - int(got) <= int(ws):
